@@ -307,6 +307,11 @@ def run(ctx):
     ctx.rule('R02p', 'a delimited verbatim argument nests only on its own pair of delimiters', 1)
     _verbatim_nesting(ctx, repo)
 
+    # ---- R02r (C09 R09b): cached argument parsers are keyed by everything they were built from
+    ctx.rule('R02r', 'the cache of standard argument parsers is keyed by a one-to-one function of the argument kind and '
+                     'of every option value: a declared signature is parsed by the parser built for it (C09 R09b)', 1)
+    _c09._module_state(ctx, repo, 'R02r', lambda name: name.startswith('pylatexenc.latexnodes.parsers'))
+
     return 'other', (
         'Decides the dispatch skeleton of the parser: every token kind the reader emits has a '
         'handler, every standard argument letter builds the parser of its kind and optionality, one '
@@ -715,6 +720,25 @@ def _rest(ctx, repo):
                "\\\\ declares its [ ] argument with allow_pre_space=False",
                'the line-break macro no longer refuses an optional argument after whitespace',
                construct='walker table: \\\\ optional argument')
+    # whitespace changes the structure only where LaTeX says so: in the default table the only argument
+    # that refuses leading whitespace is the bracket argument of the line-break macro
+    for c_ in ast.walk(wt.mod.tree):
+        if isinstance(c_, ast.Call) and any(k.arg == 'allow_pre_space' and isinstance(k.value, ast.Constant)
+                                            and k.value.value is False for k in c_.keywords):
+            spec_ = c_.args[0].value if c_.args and isinstance(c_.args[0], ast.Constant) else None
+            owner = None
+            for p_ in parents(c_):
+                if isinstance(p_, ast.Call) and call_name(p_) in ('MacroSpec', 'EnvironmentSpec', 'SpecialsSpec',
+                                                                  'std_macro', 'std_environment') and p_.args \
+                        and isinstance(p_.args[0], ast.Constant):
+                    owner = p_.args[0].value
+                    break
+            ctx.decide('R02g', owner == '\\' and spec_ == '[', wt.mod, c_,
+                       'allow_pre_space=False on the [ ] argument of the line-break macro',
+                       'the default table declares the %r argument of %r with allow_pre_space=False: whitespace in front '
+                       'of that argument (`\\\\ *[2mm]`) makes the argument be reported absent, although only the '
+                       'bracket argument of the line-break macro is whitespace-sensitive' % (spec_, owner),
+                       construct='walker table: allow_pre_space=False on %r of %r' % (spec_, owner))
     ok = '\n\n' in wt.specials
     ctx.decide('R02g', ok, wt.mod, wt.specials.get('\n\n', {}).get('rec').node if ok else None,
                'paragraph break specials declared', 'no specials declared for the paragraph break',
